@@ -359,9 +359,15 @@ func (p *Prog) buildEdges(funcs []*ssa.Function) (map[*ssa.Function][]*CallEdge,
 					}
 				}
 				// closures passed as arguments (or called directly, handled as static above when Value is MakeClosure)
-				for _, a := range cc.Args {
+				for ai, a := range cc.Args {
 					if mc, ok := a.(*ssa.MakeClosure); ok {
 						cf := mc.Fn.(*ssa.Function)
+						// ... unless the callee is a function of the program that calls that very parameter itself (and
+						// does nothing else with it): the closure then runs with what the CALLEE holds where it calls
+						// it (the edge added above), not with what the caller held when it handed it over
+						if sc := cc.StaticCallee(); sc != nil && inSet[sc] && kind == "static" && paramOnlyCalled(sc, ai) {
+							continue
+						}
 						k := "closure"
 						if kind == "go" {
 							k = "go"
@@ -971,4 +977,30 @@ func (l *Locks) MayAcquire(fn *ssa.Function) map[string]bool {
 	}
 	walk(fn)
 	return out
+}
+
+// paramOnlyCalled: fn's i-th parameter is a function value whose every use is as the target of a
+// plain call inside fn (at least one).
+func paramOnlyCalled(fn *ssa.Function, i int) bool {
+	if i >= len(fn.Params) || fn.Blocks == nil {
+		return false
+	}
+	prm := fn.Params[i]
+	if _, ok := prm.Type().Underlying().(*types.Signature); !ok {
+		return false
+	}
+	n := 0
+	for _, ref := range nonDebugRefs(prm) {
+		call, ok := ref.(*ssa.Call)
+		if !ok || call.Call.Value != ssa.Value(prm) {
+			return false
+		}
+		for _, a := range call.Call.Args {
+			if a == ssa.Value(prm) {
+				return false
+			}
+		}
+		n++
+	}
+	return n > 0
 }
